@@ -32,6 +32,10 @@ def universe(tier, formats=True, algorithm="SHA-256"):
     else:
         a = dict(pids=["a", "ab", "b"], contents=[b"x", b"0123456789ab"],
                  formats=[None, "c", "bc"] if formats else [None], algorithm=algorithm)
+    from engine import mutants
+    m = mutants.selected()
+    if m is not None and m[0] == "filehashstore.py":
+        a["mutate"] = m[1]
     return a
 
 
